@@ -25,6 +25,7 @@ func cmdC11(args []string) int {
 	_ = fs.String("out", "", "unused")
 	corpus := fs.String("corpus", "/verif/corpus/patterns_harvested.txt", "corpus")
 	fs.Parse(args)
+	noLongHays = *tier == "thorough" // the thorough ledgers predate the long-haystack families (DESIGN section 5)
 	st := newStats("C11", *seed)
 	r := newRng(*seed)
 	pg := &patGen{r: r.fork(1), corpus: loadCorpus(*corpus)}
@@ -39,12 +40,19 @@ func cmdC11(args []string) int {
 	// visited-table capacity, so the large-input fallbacks of every dispatcher run (bidirectional DFA, windowed
 	// backtracker, PikeVM) - each gets one huge haystack of short adjacent words
 	c11Huge := []string{`(\pL\pL?)`, `(\pL{2})(\pL{2})?`}
+	if noLongHays {
+		c11Huge = nil
+	}
+	c11Huge = append(c11Huge, lateCuratedFor(noLongHays)...)
 	for i := 0; i < npat+len(c11Huge); i++ {
 		var pat, src string
 		if i < npat {
 			pat, src = pg.next(i)
 		} else {
 			pat, src = c11Huge[i-npat], "huge"
+			if i-npat >= 2 {
+				src = "curated-late"
+			}
 		}
 		ast, err := syntax.Parse(pat, syntax.Perl)
 		if err != nil {
